@@ -242,7 +242,7 @@ CLAIMS = {
              "and name access add their own subscription, a failed evaluation still subscribes to everything it read; the "
              "events placeholders wait for have the prefix the owners post (player_, machine_var_) and exist in the game; "
              "the config-player subscription loop re-evaluates, re-subscribes with the same binding and ends only on "
-             "cancellation or shutdown. Semantic equivalence over all expressions and freshness over all histories are not decided. Also: boolean operators fold left to right, chained comparisons are refused not truncated, tuple and subscript forms use their evaluated parts, subscriptions of sub-evaluations inside loops are accumulated, failures are never swallowed and are TemplateEvalErrors while subscribing.",
+             "cancellation or shutdown. Semantic equivalence over all expressions and freshness over all histories are not decided. Also: boolean operators fold left to right, chained comparisons are refused not truncated, tuple and subscript forms use their evaluated parts, subscriptions of sub-evaluations inside loops are accumulated, failures are never swallowed and are TemplateEvalErrors while subscribing; settings are read and subscribed through the machine variable they live in and every *_placeholder subscription re-arms itself; producer side: set_machine_var stores the new value on every path before posting machine_var_<name>, guarded only by the computed change; the DeviceMonitor setter stores on every path, then notifies under the public attribute name exactly when the attribute already had a different value, and the notification resolves every future filed under (device, attribute) - the key subscribe_attribute files under - before forgetting them.",
         technique="table oracle against CPython operator semantics; evaluator contract; def-use flow of subscription lists on the CFG",
         ref="4/C16"),
     "C17": dict(
